@@ -1,5 +1,6 @@
 import DEngine.Lemmas.ClientQ
 import DEngine.Lemmas.ClientQOut
+import DEngine.Lemmas.ClientQKeeps
 /-!
 # C11 — Linearizable reads on the leader
 
@@ -60,15 +61,8 @@ theorem accepted_read_is_fresh_or_parked_at_read_index (c : Cfg) (s : St) (rs : 
 
 /-- parking keeps the key: the batch sits under `read_index` (old batches keep their keys) -/
 theorem preadsInsert_key (pr : List (Nat × Nat × List Nat)) (ri dl : Nat) (ids : List Nat) (id : Nat)
-    (hid : id ∈ ids) : ∃ e ∈ preadsInsert pr ri dl ids, e.1 = ri ∧ id ∈ e.2.2 := by
-  unfold preadsInsert
-  split
-  · rename_i h
-    rcases List.any_eq_true.mp h with ⟨e, he, hk⟩
-    simp only [beq_iff_eq] at hk
-    refine ⟨(e.1, e.2.1, e.2.2 ++ ids), List.mem_map.mpr ⟨e, he, by simp [hk]⟩, hk, ?_⟩
-    exact List.mem_append_right _ hid
-  · exact ⟨(ri, dl, ids), by simp, rfl, hid⟩
+    (hid : id ∈ ids) : ∃ e ∈ preadsInsert pr ri dl ids, e.1 = ri ∧ id ∈ e.2.2 :=
+  preadsInsert_new pr ri dl ids id hid
 
 /-- **Serving a parked read.** `servePreads s upto` answers exactly the batches whose key (their `read_index`) is
     `≤ upto`, with the state machine's current value; everything else stays parked. -/
